@@ -336,6 +336,11 @@ def h_makeslice(X, ins):
     E = X.heap.get(key)
     X.heap.set(key, z3.Store(E, a, z3.K(I, w.zero(e['elem']))))
     setv(X, ins, S.mk_slice(a, 0, n, c))
+    from .ir import nonescaping_slices
+    if ins.get('name') in nonescaping_slices(X.fn):
+        # a local array no callee can name (never passed, stored, returned or captured): outside every callee's frame
+        X.V.private_arrays = getattr(X.V, 'private_arrays', [])
+        X.V.private_arrays.append((key, a))
 
 
 def h_makemap(X, ins):
